@@ -120,14 +120,15 @@ def find_byte(it, s, pred, start=None, label='idx'):
     """first index i >= start with pred(s[i]); forks on found / not found. returns z3 index or None"""
     ctx = it.ctx
     start = bv(0) if start is None else start
+    co, cl, cs = conc(s.off), conc(s.len), conc(start)
+    if co is not None and cl is not None and cs is not None and cl <= 4096:
+        # concrete layout: walk the positions; symbolic bytes fork (the solver prunes impossible sides)
+        for i in range(cs, cl):
+            if ctx.branch(pred(s.at(i))):
+                return bv(i)
+        return None
     found = z3.simplify(exists_in(s, pred, start))
     if ctx.branch(found):
-        c = s.concrete()
-        cs = conc(start)
-        if c is not None and cs is not None:
-            for i in range(cs, len(c)):
-                if conc(z3.simplify(pred(bv(c[i], 8)))):
-                    return bv(i)
         i = ctx.fresh_bv(label)
         ctx.add(z3.And(z3.ULE(start, i), z3.ULT(i, s.len), pred(s.at(i)),
                        all_in(s, lambda ch: z3.Not(pred(ch)), start, i)))
@@ -564,6 +565,19 @@ def _cmp(it, a, info):
     cands = it.prog.traitm.get((tr, rt, m))
     if cands:
         return it.run_fn(it._pick_trait(cands, info, a), [a[0], a[1]])
+    # provided methods of PartialOrd / PartialEq in terms of the crate's partial_cmp / eq (as std defines them)
+    if m in ('lt', 'le', 'gt', 'ge'):
+        cands = it.prog.traitm.get((tr, rt, 'partial_cmp'))
+        if cands:
+            o = it.run_fn(it._pick_trait(cands, info, a), [a[0], a[1]])
+            if o.variant == 'None':
+                return z3.BoolVal(False)
+            k = o.fields[0].idx
+            return z3.BoolVal({'lt': k < 0, 'le': k <= 0, 'gt': k > 0, 'ge': k >= 0}[m])
+    if m == 'ne':
+        cands = it.prog.traitm.get((tr, rt, 'eq'))
+        if cands:
+            return z3.simplify(z3.Not(it.run_fn(it._pick_trait(cands, info, a), [a[0], a[1]])))
     if isinstance(x, Enum) and isinstance(y, Enum) and not x.fields and not y.fields:
         if m == 'eq':
             return z3.BoolVal(x.idx == y.idx)
@@ -634,15 +648,14 @@ def f32_cmp(it, x, y, m):
 def _trim(it, a, info):
     s = as_slice(it, a[0])
     m = info['method']
-    c = s.concrete()
-    if c is not None:
-        ws = b' \t\n\x0b\x0c\r'
-        x, y = 0, len(c)
+    co, cl = conc(s.off), conc(s.len)
+    if co is not None and cl is not None and cl <= 4096:
+        x, y = 0, cl
         if m != 'trim_end':
-            while x < y and c[x] in ws:
+            while x < y and it.ctx.branch(is_ws(s.at(x))):
                 x += 1
         if m != 'trim_start':
-            while y > x and c[y - 1] in ws:
+            while y > x and it.ctx.branch(is_ws(s.at(y - 1))):
                 y -= 1
         return Slice(s.buf, z3.simplify(s.off + x), bv(y - x), s.is_str)
     ctx = it.ctx
@@ -1295,10 +1308,11 @@ def _(it, a, info):
                  z3.Implies(z3.UGE(L, 3), d(s.at(2))), z3.Implies(z3.UGE(L, 4), d(s.at(3))),
                  z3.Implies(z3.UGE(L, 5), d(s.at(4))))
     if ctx.branch(g_q):
-        dv = lambda i: z3.BV2Int(z3.ZeroExt(8, s.at(i) - 0x30))
-        milli = dv(0) * 1000 + z3.If(z3.UGE(L, 3), dv(2) * 100, 0) + z3.If(z3.UGE(L, 4), dv(3) * 10, 0) + \
-            z3.If(z3.UGE(L, 5), dv(4), 0)
-        m = ctx.fresh('q_milli', z3.IntSort())
+        dv = lambda i: z3.ZeroExt(24, s.at(i) - 0x30)
+        z = z3.BitVecVal(0, 32)
+        milli = dv(0) * 1000 + z3.If(z3.UGE(L, 3), dv(2) * 100, z) + z3.If(z3.UGE(L, 4), dv(3) * 10, z) + \
+            z3.If(z3.UGE(L, 5), dv(4), z)
+        m = ctx.fresh_bv('q_milli', 32)
         ctx.add(m == milli)
         return Ok(F32('fin', m))
 
@@ -1314,7 +1328,7 @@ def _(it, a, info):
         return Ok(F32('inf'))
     # class (c): malformed for the qvalue grammar. std may accept it (e.g. "1e3", ".5", "-0") or reject it.
     if ctx.branch(ctx.fresh_bool('f32_other_parses')):
-        m = ctx.fresh('q_other', z3.IntSort())
+        m = ctx.fresh_bv('q_other', 32)
         ctx.event('f32_outside_grammar')
         return Ok(F32('fin', m))
     return Err(Struct('ParseFloatError', []))
